@@ -575,3 +575,91 @@ def run_bx_determinism(name, maxlen):
                            'det_case': {'history': None, 'digests': [a['digest'], b['digest']]}, 'clauses': ['C19: cross-process digest mismatch'], 'tags': ['C19'], 'props': ['C19']})
     r.discharged = r.obligations - len(r.failures)
     return r
+
+
+def run_gk_native(name, harness_filter=None):
+    """bounded stand-in for the panic clause of C16: the real generated clone / clone_from of every corpus
+    module (thorough corpus: native execution is cheap) executed natively with a panic injected into the
+    j-th clone of a droppable field, for every j"""
+    r = UnitResult(name, 'native execution of generated code (gk_native)')
+    t0 = time.time()
+    gk = os.path.join(VERIF, 'gk')
+    try:
+        shutil.copyfile(os.path.join(REPO, 'Cargo.lock'), os.path.join(gk, 'Cargo.lock'))
+    except Exception:
+        pass
+    seed = str(int(os.environ.get('VERIF_SEED', '0') or 0))
+    env = {'GK_TIER': 'thorough', 'GK_SEED': seed, 'CARGO_TARGET_DIR': os.path.join(BUILD, 'gk-native'), 'CARGO_NET_OFFLINE': 'true'}
+    cmd = ['cargo', 'run', '--offline', '--quiet', '--bin', 'gk_native'] + ([harness_filter] if harness_filter else [])
+    r.cmd = 'cd %s && GK_TIER=thorough GK_SEED=%s %s' % (gk, seed, ' '.join(cmd))
+    rc, out, err, wall, to = _sh(cmd, 1800, cwd=gk, env=env)
+    r.wall_s = time.time() - t0
+    line = [l for l in out.split('\n') if l.startswith('{"ran"')]
+    if not line:
+        r.status, r.reason = INCONCLUSIVE, 'gk_native does not build or run against the current tree (rc=%s): %s' % (rc, (err or out)[-600:])
+        return r
+    j = json.loads(line[-1])
+    r.obligations = j['ran']
+    r.bounded = ('BOUNDED: corpus modules with the clone fragment (thorough corpus: fixed modules + 12 random ones from VERIF_SEED), every variant, '
+                 'a panic injected into the j-th clone of a droppable field for every j, clone and clone_from; field values are fixed')
+    mods = sorted(set(h.split('::')[0] for h in j['harnesses']))
+    r.extra = {'evaluations': j['ran'], 'distinct_nontrivial': j['ran'], 'samples': j['harnesses'][:2],
+               'rule': 'one evaluation = one (module, variant, operation, panic position) executed natively; all are non-trivial (the injected panic must be reached)',
+               'programs': mods}
+    r.functions = [{'kind': 'fn', 'selector': 'generated Clone::clone / Clone::clone_from of corpus modules ' + ', '.join(mods), 'file': 'truc/src/generator/fragment/clone.rs', 'line': 0,
+                    'sha256': 'generated on this run by /repo\'s generator'}]
+    if j['ran'] == 0 and not harness_filter:
+        r.status, r.reason = INCONCLUSIVE, 'vacuity guard: no native harness ran'
+        return r
+    for f in j['failed']:
+        if 'vacuity' in f['message']:
+            r.status, r.reason = INCONCLUSIVE, '%s: %s' % (f['harness'], f['message'])
+            return r
+    for f in j['failed']:
+        r.failures.append({'function': f['harness'], 'message': f['message'], 'native_harness': f['harness'], 'clauses': [f['message']],
+                           'tags': ['C16', 'C06'], 'props': ['C16', 'C06']})
+    if r.failures:
+        r.status = VIOLATION
+        r.reason = '%d native harness(es) failed' % len(r.failures)
+    r.discharged = r.obligations - len(r.failures)
+    return r
+
+
+def run_bx_vec(name, maxlen, case=None):
+    """bounded stand-in for the panic half of C09 (Kani does not unwind): native bounded-exhaustive execution of
+    try_convert_vec_in_place with a converter that fails (error or panic, three phases) at every position"""
+    r = UnitResult(name, 'bx (native bounded-exhaustive execution of try_convert_vec_in_place with a failing converter)')
+    t0 = time.time()
+    exe, err = build_bx('bx_vec')
+    if exe is None:
+        r.status, r.reason = INCONCLUSIVE, 'bx_vec does not build against the current tree: %s' % err
+        return r
+    cmd = [exe, '--case', json.dumps(case)] if case else [exe, '--max-len', str(maxlen)]
+    r.cmd = ' '.join(cmd[:3])
+    rc, out, err, wall, to = _sh(cmd, 1800)
+    r.wall_s = time.time() - t0
+    if case:
+        r.status = VIOLATION if rc == 1 else (PASS if rc == 0 else INCONCLUSIVE)
+        r.reason = out[-1500:]
+        return r
+    try:
+        j = json.loads(out.strip().split('\n')[-1])
+    except Exception:
+        r.status, r.reason = INCONCLUSIVE, 'bx_vec rc=%s: %s' % (rc, (out + err)[-800:])
+        return r
+    r.obligations = j['cases']
+    r.bounded = ('BOUNDED: vector length <= %d; every failure position, every converted/abandoned pattern of the preceding elements, failure kinds {error, panic} x '
+                 'phases {at once, after dropping the input, after building the output}; element families: drop-counted tokens, 80-byte values, align(32) values, '
+                 'Box-owning values; ledger of drops, call counter, counting allocator, identity of the error value / panic payload' % maxlen)
+    r.extra = {'evaluations': j['cases'], 'distinct_nontrivial': j['panic_cases'], 'samples': [j.get('sample')],
+               'rule': 'one evaluation = one (family, length, failure position, pattern, kind, phase) executed natively; non-trivial = the converter panics (the half Kani cannot reach)'}
+    r.functions = [{'kind': 'fn', 'selector': 'try_convert_vec_in_place (executed natively, linked from /repo)', 'file': 'truc_runtime/src/convert.rs', 'line': 0, 'sha256': 'executed natively'}]
+    if j.get('violation'):
+        v = j['violation']
+        r.status = VIOLATION
+        r.reason = 'a native execution violates the postcondition of the conversion'
+        props = sorted(set(c[:3] for c in v['clauses']))
+        r.failures.append({'function': 'try_convert_vec_in_place', 'message': '; '.join(v['clauses'][:3]), 'vec_case': v['case'], 'clauses': v['clauses'],
+                           'tags': props, 'props': props})
+    r.discharged = r.obligations - len(r.failures)
+    return r
